@@ -55,7 +55,7 @@ def c01(tier, seed):
                 jobs.append(job("HSqlOpener", [w, n, pre], safety=True, witness_every=50))
     c.run_group("T-openers-api", BASE + H("h_api.go"), jobs, expect_labels=["done"])
     c.run_group("T-attack-templates", SQLT, rel_jobs(tier, seed, "HSqlAttackTotal", "HSqlNearTotal", qstep=48), expect_labels=["done"])
-    c.run_group("T-class-sequences", BASE + H("h_sqli.go", "h_sql_tpl.go", "h_sql_seq.go"), seq_jobs("HSqlSeqTotal", tier, seed, frac_quick=2, safety=True), expect_labels=["done"])
+    c.run_group("T-class-sequences", BASE + H("h_sqli.go", "h_sql_tpl.go", "h_sql_seq.go"), seq_jobs("HSqlSeqTotal", tier, seed, frac_quick=4, safety=True), expect_labels=["done"])
     return c.finish("model_checking", "every feasible path of IsSQLi over every byte string of length <= %d; first scan step in 5 modes for inputs <= %d; 15 kinds of long tokens (29-34 bytes) with a free byte before or after; 41 construct openers x 4 context prefixes + <= %d free bytes; each path's index/slice/nil/division/step-budget obligations decided by z3 or the byte-domain procedure" % (N, NU, NT),
                     {"W_free_bytes": N, "U_free_bytes": NU, "opener_tail_free_bytes": NT})
 
@@ -341,7 +341,7 @@ def c06(tier, seed):
         jobs += wjobs("HSpecFold", NW, extra=[f])
     c.run_group("W-stream-fold", SPECSQL, jobs, expect_labels=["checked"])
     c.run_group("W-api", SPECSQL, wjobs("HSpecIsSQLi", NW), expect_labels=["checked"])
-    c.run_group("T-templates", SPECSQL + H("h_sql_tpl.go", "h_spec_sqli_tpl.go"), rel_jobs(tier, seed, "HSpecSqlT", "HSpecSqlNearT", qstep=67, safety=False), expect_labels=["checked"])
+    c.run_group("T-templates", SPECSQL + H("h_sql_tpl.go", "h_spec_sqli_tpl.go", "h_sql_seq.go"), rel_jobs(tier, seed, "HSpecSqlT", "HSpecSqlNearT", qstep=67, safety=False), expect_labels=["checked"])
     c.run_group("T-class-sequences", SPECSQL + H("h_sql_tpl.go", "h_spec_sqli_tpl.go", "h_sql_seq.go"), seq_jobs("HSpecSqlSeq", tier, seed, frac_quick=3, frac_thorough4=32), expect_labels=["checked"])
     c.assumptions.append("text that reaches a Unicode case-folding call is ASCII (other paths are closed as excluded and counted)")
     return c.finish("model_checking", "implementation vs independently written reference (spec/sqltok.go, spec/sqlfold.go) on the same symbolic input: first token in 5 modes for all inputs <= %d bytes; token stream, folded tokens, fingerprint, context verdict in 5 modes and IsSQLi for all inputs <= %d bytes" % (NU, NW),
